@@ -37,7 +37,15 @@ func (s *Server) HandleBefore(
 		q := pctx.Req.Question[0]
 		qt := q.Qtype
 		host := aghnet.NormalizeDomain(q.Name)
-		if s.access.isBlockedHost(host, qt) {
+
+		// The access manager is replaced under serverLock when the access
+		// settings are updated, so get the current one under the lock.  Don't
+		// keep the lock while using it, as IsBlockedClient above doesn't.
+		s.serverLock.RLock()
+		access := s.access
+		s.serverLock.RUnlock()
+
+		if access.isBlockedHost(host, qt) {
 			log.Debug("access: request %s %s is in access blocklist", dns.Type(qt), host)
 
 			return s.preBlockedResponse(pctx)
